@@ -5,7 +5,9 @@ import (
 	"encoding/json"
 	"fmt"
 	"io"
+	"reflect"
 	"time"
+	"unsafe"
 
 	hccrypto "github.com/brutella/hc/crypto"
 
@@ -30,6 +32,7 @@ type c05Case struct {
 	Secret int        `json:"secret"`
 	Dir    string     `json:"dir"`    // receiver: "acc" (accessory-side session receives c2a) | "ctl"
 	Prior  int        `json:"prior"`  // messages exchanged before (advances both counters)
+	Start  uint64     `json:"start"`  // frame counters of both directions preset to this value (0 = untouched)
 	Lens   []int      `json:"lens"`   // message lengths of the stream under attack
 	Faults []c05Fault `json:"faults"` // applied in order
 }
@@ -44,6 +47,7 @@ type c05Setup struct {
 	frames  []c05Frame
 	reflect []byte // the receiver's own outgoing frames for the same plaintexts (opposite direction keys)
 	other   []byte // same plaintexts under another shared secret
+	old     []byte // other plaintexts of the same lengths sealed under the same key 2^32 counters earlier
 	recv    hccrypto.Cryptographer
 }
 
@@ -65,6 +69,13 @@ func c05Build(cas c05Case) (*c05Setup, error) {
 		return nil, err
 	}
 	var ctr, rctr, octr uint64
+	if cas.Start != 0 {
+		if !setCounters(s.recv, cas.Start, cas.Start) {
+			return nil, errNoCounters
+		}
+		ctr, rctr, octr = cas.Start, cas.Start, cas.Start
+	}
+	oldctr := ctr - (1 << 32)
 	for i := 0; i < cas.Prior; i++ {
 		m := []byte{byte(i)}
 		ct := refctl.Frames(key, &ctr, m)
@@ -91,6 +102,7 @@ func c05Build(cas c05Case) (*c05Setup, error) {
 		}
 		s.reflect = append(s.reflect, refctl.Frames(rkey, &rctr, msg)...)
 		s.other = append(s.other, refctl.Frames(okey, &octr, msg)...)
+		s.old = append(s.old, refctl.Frames(key, &oldctr, pat(n, byte(31*i+77)))...)
 	}
 	return s, nil
 }
@@ -153,6 +165,13 @@ func (s *c05Setup) apply(in []byte, f c05Fault, pristine bool) []byte {
 			}
 			return own(i)
 		})
+	case "replay-2^32-earlier": // replace frame A by a frame the same sender sealed 2^32 frames earlier (other plaintext)
+		out = join(seq(), func(i int) []byte {
+			if i == f.A {
+				return s.frameBytes(s.old, i)
+			}
+			return own(i)
+		})
 	case "insert-byte":
 		if f.A <= len(in) {
 			out = append(append(append([]byte{}, in[:f.A]...), byte(f.B)), in[f.A:]...)
@@ -165,9 +184,32 @@ func (s *c05Setup) apply(in []byte, f c05Fault, pristine bool) []byte {
 	return out
 }
 
+var errNoCounters = fmt.Errorf("frame counters of the session are not reachable (fields renamed?)")
+
+// setCounters presets the private frame counters of an hc secure session (reflection, no source hook), so
+// that counters near and beyond 2^32 can be explored without four billion calls.
+func setCounters(c hccrypto.Cryptographer, enc, dec uint64) bool {
+	v := reflect.ValueOf(c)
+	if v.Kind() != reflect.Ptr || v.Elem().Kind() != reflect.Struct {
+		return false
+	}
+	e, d := v.Elem().FieldByName("encryptCount"), v.Elem().FieldByName("decryptCount")
+	if !e.IsValid() || !d.IsValid() || e.Kind() != reflect.Uint64 || d.Kind() != reflect.Uint64 {
+		return false
+	}
+	*(*uint64)(unsafe.Pointer(e.UnsafeAddr())) = enc
+	*(*uint64)(unsafe.Pointer(d.UnsafeAddr())) = dec
+	return true
+}
+
 func c05Exec(c *fw.Ctx, cas c05Case) {
 	c.Eval(1)
 	s, err := c05Build(cas)
+	if err == errNoCounters {
+		c.Note("preset frame counters skipped: " + err.Error())
+		c.Eval(-1)
+		return
+	}
 	if err != nil {
 		c.Infra("C05 setup: " + err.Error())
 		return
@@ -304,6 +346,11 @@ func c05Singles(s *c05Setup, thorough bool) []c05Fault {
 			}
 		}
 		fs = append(fs, c05Fault{Kind: "reflect-all"})
+		if len(s.old) == len(s.stream) {
+			for i := 0; i < nf; i++ {
+				fs = append(fs, c05Fault{Kind: "replay-2^32-earlier", A: i})
+			}
+		}
 	}
 	// byte insertion / removal at frame edges and header positions
 	for _, f := range s.frames {
@@ -318,11 +365,14 @@ func c05Run(c *fw.Ctx) {
 	type shape struct {
 		lens  []int
 		prior int
+		start uint64
 	}
 	shapes := []shape{
-		{[]int{1}, 0}, {[]int{2}, 0}, {[]int{1023}, 0}, {[]int{1024}, 0}, {[]int{1025}, 0},
-		{[]int{1, 1}, 0}, {[]int{5, 1024, 3}, 0}, {[]int{2048}, 1}, {[]int{2049}, 0}, {[]int{3072}, 0},
-		{[]int{7, 9, 11, 13}, 1}, {[]int{1024, 1}, 300}, {[]int{0, 4, 0, 6}, 0}, {[]int{40}, 300},
+		{[]int{1}, 0, 0}, {[]int{2}, 0, 0}, {[]int{1023}, 0, 0}, {[]int{1024}, 0, 0}, {[]int{1025}, 0, 0},
+		{[]int{1, 1}, 0, 0}, {[]int{5, 1024, 3}, 0, 0}, {[]int{2048}, 1, 0}, {[]int{2049}, 0, 0}, {[]int{3072}, 0, 0},
+		{[]int{7, 9, 11, 13}, 1, 0}, {[]int{1024, 1}, 300, 0}, {[]int{0, 4, 0, 6}, 0, 0}, {[]int{40}, 300, 0},
+		{[]int{9, 1025}, 0, 1<<32 - 1}, {[]int{5, 6}, 0, 1 << 32}, {[]int{3, 1024, 2}, 0, 1<<32 + 5}, {[]int{8, 8}, 0, 1 << 40},
+		{[]int{4, 4}, 0, 1<<63 - 1}, {[]int{4, 1030}, 0, 1<<64 - 4},
 	}
 	idx := 0
 	for si, sh := range shapes {
@@ -331,7 +381,7 @@ func c05Run(c *fw.Ctx) {
 				if !c.Thorough() && secret != si%3 {
 					continue
 				}
-				base := c05Case{Secret: secret, Dir: dir, Prior: sh.prior, Lens: sh.lens}
+				base := c05Case{Secret: secret, Dir: dir, Prior: sh.prior, Lens: sh.lens, Start: sh.start}
 				s, err := c05Build(base)
 				if err != nil {
 					c.Infra(err.Error())
@@ -403,7 +453,7 @@ func init() {
 	fw.Register(&fw.Check{
 		ID:     "C05",
 		Level:  "fault_enumeration",
-		Rule:   "for 14 stream shapes (0–4 frames, message lengths around 1, 1023..1025, k·1024, counters starting at 0, 1 and 300) × both receiving directions × secrets: every single-bit flip of the whole ciphertext stream, truncation at every byte offset, every frame deletion, duplication at every position, every non-identity permutation, reflection of the receiver's own frames, same-index frames of a session with another secret, byte insertion/removal at frame edges; thorough adds all ordered pairs of faults from a reduced menu on the small shapes. Sender = reference framing, receiver = hc's real session. distinct_nontrivial = distinct (fault kinds, error reported?) classes among faults that changed at least one byte",
+		Rule:   "for 20 stream shapes (0–4 frames, message lengths around 1, 1023..1025, k·1024; frame counters starting at 0, 1, 300 and — preset through reflection — 2^32−1, 2^32, 2^32+5, 2^40, 2^63−1, 2^64−4) × both receiving directions × secrets: every single-bit flip of the whole ciphertext stream, truncation at every byte offset, every frame deletion, duplication at every position, every non-identity permutation, reflection of the receiver's own frames, same-index frames of a session with another secret, a frame the same sender sealed 2^32 counters earlier, byte insertion/removal at frame edges; thorough adds all ordered pairs of faults from a reduced menu on the small shapes. Sender = reference framing, receiver = hc's real session. distinct_nontrivial = distinct (fault kinds, error reported?) classes among faults that changed at least one byte",
 		Run:    c05Run,
 		Budget: func(string) time.Duration { return 25 * time.Minute },
 		Replay: func(c *fw.Ctx, raw json.RawMessage) {
